@@ -40,6 +40,7 @@ func ZzC12MediaURLAny() {
 	zzAssert(!(ur == nil && err2 == nil), "media URL resolution returns a URL or an error, never neither")
 	zzCover("resolved", ur != nil)
 	zzCover("rejected", err2 != nil)
+	zzAssertMustFail(err2 == nil, "twin: every control attribute resolves")
 }
 
 // C20 (client-side control resolution against its documented rule): for a
